@@ -5,8 +5,11 @@ import (
 	"context"
 	"fmt"
 	"math/rand/v2"
+	"strings"
 	"testing"
 	"time"
+
+	ds "github.com/ipfs/go-datastore"
 
 	kvexecutor "github.com/evstack/ev-node/apps/testapp/kv"
 
@@ -60,6 +63,7 @@ func c15Run(t *testing.T, s *sim.Scn) *sim.Outcome {
 			return o
 		}
 	}
+	model := map[string]string{} // normalised key -> value of the last transaction that wrote it
 	prev := map[string][]byte{}
 	for _, in := range insts {
 		prev[in.name] = genesisRoot
@@ -101,17 +105,37 @@ func c15Run(t *testing.T, s *sim.Scn) *sim.Outcome {
 		pf := insts[int(op.A)%2]
 		switch op.K {
 		case "block":
-			n := int(op.A % 4)
+			n := int(op.A % 6)
 			var txs [][]byte
 			for j := 0; j < n; j++ {
-				key := fmt.Sprintf("k%d", (int(op.B)+j)%5)
+				kn := (int(op.B) + j) % 5
+				if op.C%3 == 1 {
+					kn = (int(op.B) + j/2) % 5 // several writes to one key inside the block
+				}
+				key := fmt.Sprintf("k%d", kn)
 				if op.C%7 == 3 {
 					key = "finalized/height" // an application key that looks like bookkeeping but is not reserved
 				}
-				txs = append(txs, []byte(fmt.Sprintf("%s=v%d-%d", key, i, j)))
+				if op.C%2 == 1 {
+					// other spellings of the same key: the datastore normalises paths, the executor trims blanks
+					key = fmt.Sprintf([]string{"%s", "/%s", "%s/", "//%s", " %s ", "./%s"}[(int(op.C)+j)%6], key)
+					o.Count("alias-spellings", 1)
+				}
+				val := fmt.Sprintf("v%d-%d", i, j)
+				txs = append(txs, []byte(fmt.Sprintf("%s=%s", key, val)))
+				model[ds.NewKey(strings.TrimSpace(key)).String()] = val
 			}
 			if !execAll(i, txs, op.C) {
 				return o
+			}
+			// last writer wins, per normalised key, on every instance
+			for _, in := range insts {
+				for mk, mv := range model {
+					if got, ok := in.ex.GetStoreValue(ctx, mk); !ok || got != mv {
+						o.Fail("C15/value-is-not-last-write", "", i, fmt.Sprintf("%s: after block %d key %s reads %q (found=%v), the last transaction that wrote it carried %q", in.name, height, mk, got, ok, mv), "the state is the result of applying the transactions in order")
+						return o
+					}
+				}
 			}
 			o.Count("blocks", 1)
 		case "bad":
@@ -216,7 +240,7 @@ func c15Gen(r *rand.Rand, tier string) *sim.Scn {
 	for i := 0; i < n; i++ {
 		switch x := r.IntN(100); {
 		case x < 40:
-			s.Ops = append(s.Ops, sim.Op{K: "block", A: r.Int64N(4), B: r.Int64N(5), C: r.Int64N(21)})
+			s.Ops = append(s.Ops, sim.Op{K: "block", A: r.Int64N(6), B: r.Int64N(5), C: r.Int64N(42)})
 		case x < 48:
 			s.Ops = append(s.Ops, sim.Op{K: "bad", A: r.Int64N(3)})
 		case x < 55:
